@@ -199,6 +199,17 @@ OPERATORS = [
     ("eq-check-worklist", "equiv", ["C18"], CHK, r"            obj, path, parent, lo, hi = stack\.pop\(\)\n",
      "            stack.reverse()\n            stack.reverse()\n            obj, path, parent, lo, hi = stack.pop()\n",
      "the work list of nodes is re-ordered (twice): no key sequence is"),
+    ("seek-step-right", "break", ["C02"], I, r"        pseudoindex \+= max \+ 1;\n", "        pseudoindex += max;\n",
+     "moving to the next leaf counts one item too few"),
+    ("seek-land-left", "break", ["C02"], I, r"        currentoffset = currentbucket->len - 1;\n", "        currentoffset = currentbucket->len;\n",
+     "moving to the previous leaf lands behind its last item"),
+    ("seek-delta-left", "break", ["C02"], I, r"        delta \+= currentoffset \+ 1;\n", "        delta += currentoffset;\n",
+     "the distance still to go is one off after a move to the previous leaf"),
+    ("eq-seek-commit-once", "equiv", ["C02", "C15"], I,
+     r"    self->currentoffset = currentoffset;\n    self->pseudoindex = pseudoindex;\n",
+     "    self->pseudoindex = pseudoindex;\n    self->currentoffset = currentoffset;\n",
+     "the two integer fields of the finger committed in the other order"),
+    ("eq-rename-seek-max", "equiv", ["C02"], I, r"\bmax\b", "room", "the room left in the leaf under another name"),
     # ---- equivalence operators (must NOT alarm) ------------------------------------------
     ("eq-shift-lines", "equiv", ["C05", "C04", "C16", "C17", "C14"], B, r"\A", "/* moved */\n\n\n", "shift every line of the file"),
     ("eq-shift-lines-t", "equiv", ["C05", "C04", "C08", "C03", "C01", "C18"], T, r"\A", "/* moved */\n\n\n", "shift every line of the file"),
